@@ -35,6 +35,25 @@ pub fn cookie_bits(nonce: &[u8]) -> Option<(bool, bool)> {
     Some((f[0] & 0x80 != 0, f[0] & 0x40 != 0))
 }
 
+thread_local! {
+    /// realms met in traffic the harness did not generate itself (executions of the repository's own
+    /// tests): candidate realms for naming the key an integrity attribute verifies under
+    static EXTRA_REALMS: std::cell::RefCell<Vec<String>> = const { std::cell::RefCell::new(Vec::new()) };
+}
+
+pub fn note_realms(b: &[u8]) {
+    if let Some(p) = obs::parse(b) {
+        for a in p.attrs.iter().filter(|a| a.t == obs::T_REALM) {
+            let r = String::from_utf8_lossy(&a.value).to_string();
+            EXTRA_REALMS.with(|v| {
+                if !v.borrow().contains(&r) && v.borrow().len() < 8 {
+                    v.borrow_mut().push(r);
+                }
+            });
+        }
+    }
+}
+
 pub struct LtServer {
     pub realm: String,
     pub counter: u32,
@@ -73,7 +92,15 @@ fn first_admitted<'a>(p: &'a Parsed, t: u16) -> Option<&'a obs::RawAttr> {
 /// {1 = MD5, 2 = SHA-256}, and "otherpw" for the same keys with a different password
 pub fn lt_key_names(cfg: &Cfg, b: &[u8], p: &Parsed, t: u16) -> Vec<String> {
     let mut out = Vec::new();
-    for realm in [SERVER_REALM, OTHER_REALM] {
+    let mut realms: Vec<String> = vec![SERVER_REALM.to_string(), OTHER_REALM.to_string()];
+    EXTRA_REALMS.with(|r| {
+        for x in r.borrow().iter() {
+            if !realms.contains(x) {
+                realms.push(x.clone());
+            }
+        }
+    });
+    for realm in realms.iter().map(|r| r.as_str()) {
         for alg in [1u16, 2] {
             let k = obs::lt_key(&cfg.user, realm, &cfg.password, alg);
             if obs::integrity_status(b, p, t, Some(&k)) == "valid" {
